@@ -16,7 +16,7 @@ From SV Require Import Lib.Base Gen.Consts.
 From SV Require Import Model.Seq32 Model.Assembler Model.TcpBuf Model.TcpTypes Model.Tcp.
 From SV Require Import Proofs.TcpSendBase Proofs.TcpSendInv Proofs.TcpSendAck Proofs.TcpSendProc.
 From SV Require Import Proofs.TcpSendApi Proofs.TcpSendDisp Proofs.TcpSendDisp2 Proofs.TcpSendDisp3.
-From SV Require Import Proofs.TcpSendTrace Proofs.TcpSendProps.
+From SV Require Import Proofs.TcpSendTrace Proofs.TcpSendProps Proofs.TcpSendReply.
 
 (* ---- the inductive invariant ---- *)
 
@@ -174,6 +174,13 @@ Theorem C05_window_scaled_as_negotiated : forall cx g s e s' res tags p,
   r_window_len (snd p) = u16_try (shr (rb_window (s_rx_buffer s)) (s_remote_win_shift s)).
 Proof. exact window_scaled_as_negotiated. Qed.
 Print Assumptions C05_window_scaled_as_negotiated.
+
+(* the segments process itself builds (ACK, challenge ACK, RST replies) carry no payload and no
+   SYN/FIN: every data-bearing segment of a socket is built by dispatch *)
+Theorem C05_replies_carry_no_data : forall cx s ip r s' o tags,
+  iface_tcp_ingress cx s ip r = Ok (s', o, tags) -> reply_shape o.
+Proof. exact ingress_reply_no_data. Qed.
+Print Assumptions C05_replies_carry_no_data.
 
 (* no panic: under the sender invariant the only panic source left in dispatch is the
    receiver-side sequence subtraction of last_scaled_window (C04's invariant) *)
